@@ -331,6 +331,16 @@ func MergeHeaders(src []*Header) (h *Header, reflinks [][]*Reference, err error)
 		}
 		reflinks[i] = links
 	}
+	// A reference added from an earlier source may since have been
+	// replaced by a more detailed description from a later one, so
+	// resolve every link against the final reference list.
+	for i, s := range src {
+		links := make([]*Reference, len(s.refs))
+		for id, r := range s.refs {
+			links[id] = h.refs[h.seenRefs[r.name]]
+		}
+		reflinks[i] = links
+	}
 
 	return h, reflinks, nil
 }
